@@ -51,4 +51,9 @@ class Macro:
 
         """
         pts = tuple([ProofTerm.atom(id, prev) for id, prev in prevs])
-        return self.get_proof_term(args, pts).export(prefix)
+        pt = self.get_proof_term(args, pts)
+        if pt.rule == 'atom':
+            # The result is one of the premises, but a proof needs at least one
+            # step: derive it again through A --> A.
+            pt = ProofTerm.assume(pt.prop).implies_intr(pt.prop).implies_elim(pt)
+        return pt.export(prefix)
